@@ -171,3 +171,28 @@ func VerifC41ParseHello(msg []byte) (*VerifC41Hello, bool) {
 	}
 	return h, true
 }
+
+type verifC41Param struct{ vip net.IP }
+
+func (p verifC41Param) GetVip() net.IP { return p.vip }
+
+// VerifC41ConnFor returns a server Conn that reports the given VIP (nil = unknown) and the given SNI, as
+// ServerRule.Get / MultiCertificate.Get see them after readClientHello has stored the hello's server name.
+func VerifC41ConnFor(vip net.IP, sni string) *Conn {
+	c := &Conn{config: &Config{}, serverName: sni}
+	if vip != nil {
+		c.param = verifC41Param{vip}
+	}
+	return c
+}
+
+// VerifC41CertForName runs (*Config).getCertificateForName and returns the index into cfg.Certificates.
+func VerifC41CertForName(cfg *Config, name string) int {
+	got := cfg.getCertificateForName(name)
+	for i := range cfg.Certificates {
+		if got == &cfg.Certificates[i] {
+			return i
+		}
+	}
+	return -1
+}
